@@ -209,7 +209,7 @@ theorem lossy_lemire_value (F : FTy) (hF : C01.IsLemireFloat F) (q : Int) (hq : 
   · obtain ⟨hl, hr⟩ := lossy_lemire_agrees F hF q hq w hw h0 hv
     refine ⟨fp0, (powFrac 10 q w).1, (powFrac 10 q w).2, hl, hv, hden, hr, Nat.le_refl _, ?_⟩
     exact Nat.mul_le_mul_left _ (Nat.le_succ _)
-  · obtain ⟨_, _, _, _, hl⟩ := C01.lemire_invalid_estOK F hF q w fp0 hw h0 (by omega)
+  · obtain ⟨_, _, _, _, hl⟩ := C01.lemire_invalid_facts F hF q w fp0 hw h0 (by omega)
     exact hl
 
 theorem lossy_lemire_neighbour_proved : lossy_lemire_neighbour := by
